@@ -210,7 +210,7 @@ theorem stat_accepted_partial (cfg : Cfg) (sh : List Nat) (data : Idx → Val) (
     Lemmas.C10.specStat_cell_reduce]
   exact Lemmas.C10.specAccept_exact _ _
 
-/-- Witnesses for the acceptance rule and for F10d / F10e (replayed on the real code by the harness).
+/-- Witnesses for the acceptance rule and for F10d / F10d-int (replayed on the real code by the harness).
 `[2^24, 1, 1, 1]` (float32 values): the sum is `2^24+3`, exactly; a single-precision accumulation
 (`2^24`) is rejected.  `[2^53, 1, 1]`: a double-precision accumulation may lose both ones (`2^53`) and
 is accepted, `2^53 + 16` is not.  float16 `[60000, 60000]`: mean `60000`, not `+inf`.
